@@ -198,3 +198,80 @@ pub proof fn lemma_chain_prefix_eq(m: MapB, w1: MapW, w2: MapW, b: int, k: int)
 }
 
 } // verus!
+
+verus! {
+/// position of the predecessor of chain member i (0 for the head)
+pub open spec fn prev_of(s: Seq<nat>, i: int) -> nat { if i > 0 { s[i - 1] } else { 0 } }
+
+/// result of the chain lookup, per witness
+pub open spec fn find_post(m: MapB, w: MapW, key: Seq<u8>, r: Option<(nat, nat)>) -> bool {
+    let s = w.cs[bucket_of(key, m.n)];
+    match r {
+        Some((ko, po)) => exists|i: int| 0 <= i < s.len() && #[trigger] s[i] == ko && kkey(w.kw, ko) == key && po == prev_of(s, i),
+        None => !has_key(w, key),
+    }
+}
+
+pub proof fn lemma_keys_distinct(kw: HeapW, o1: nat, o2: nat)
+    requires keys_distinct(kw), is_key(kw, o1), is_key(kw, o2), kkey(kw, o1) == kkey(kw, o2)
+    ensures o1 == o2
+{
+    reveal(keys_distinct);
+}
+pub proof fn lemma_on_chain(kw: HeapW, n: int, cs: Seq<Seq<nat>>, o: nat)
+    requires all_on_chains(kw, n, cs), is_key(kw, o)
+    ensures cs[bucket_of(kkey(kw, o), n)].contains(o)
+{
+    reveal(all_on_chains);
+}
+pub proof fn lemma_val_link(kw: HeapW, vw: HeapW, vown: Map<nat, nat>, o: nat)
+    requires vals_linked(kw, vw, vown), is_key(kw, o)
+    ensures is_val(vw, kvoff(kw, o)), vown[kvoff(kw, o)] == o
+{
+    reveal(vals_linked);
+}
+/// a key found on a chain determines the lookup result
+pub proof fn lemma_lookup_found(m: MapB, w: MapW, key: Seq<u8>, ko: nat)
+    requires map_ok(m, w), is_key(w.kw, ko), kkey(w.kw, ko) == key
+    ensures lookup(w, key) == Some(vval(w.vw, kvoff(w.kw, ko))), has_key(w, key), rec_of(w, key) == ko
+{
+    assert(has_key(w, key));
+    let o = rec_of(w, key);
+    assert(is_key(w.kw, o) && kkey(w.kw, o) == key);
+    lemma_keys_distinct(w.kw, o, ko);
+}
+/// a key that is on no member of its bucket's chain is absent
+pub proof fn lemma_lookup_absent(m: MapB, w: MapW, key: Seq<u8>)
+    requires map_ok(m, w), 0 <= bucket_of(key, m.n) < m.n,
+        forall|i: int| 0 <= i < w.cs[bucket_of(key, m.n)].len() ==> kkey(w.kw, #[trigger] w.cs[bucket_of(key, m.n)][i]) != key
+    ensures !has_key(w, key), lookup(w, key) is None
+{
+    if has_key(w, key) {
+        let o = rec_of(w, key);
+        assert(is_key(w.kw, o) && kkey(w.kw, o) == key);
+        lemma_on_chain(w.kw, m.n, w.cs, o);
+        let s = w.cs[bucket_of(key, m.n)];
+        let i = choose|i: int| 0 <= i < s.len() && s[i] == o;
+        assert(kkey(w.kw, s[i]) != key);
+    }
+}
+/// two witnesses of the same files agree on the content of a key record both know
+pub proof fn lemma_key_same(m: MapB, w1: MapW, w2: MapW, o: nat)
+    requires map_ok(m, w1), map_ok(m, w2), is_key(w1.kw, o), is_key(w2.kw, o)
+    ensures kkey(w1.kw, o) == kkey(w2.kw, o), kvoff(w1.kw, o) == kvoff(w2.kw, o), knext(w1.kw, o) == knext(w2.kw, o)
+{
+    lemma_key_decodes(m.kb, m.kpm, w1.kw, o);
+    lemma_key_decodes(m.kb, m.kpm, w2.kw, o);
+}
+pub proof fn lemma_val_same(m: MapB, w1: MapW, w2: MapW, v: nat)
+    requires map_ok(m, w1), map_ok(m, w2), is_val(w1.vw, v), is_val(w2.vw, v)
+    ensures vval(w1.vw, v) == vval(w2.vw, v)
+{
+    lemma_val_decodes(m.vb, m.vpm, w1.vw, v);
+    lemma_val_decodes(m.vb, m.vpm, w2.vw, v);
+}
+pub proof fn lemma_bucket_range(key: Seq<u8>, n: int)
+    requires n > 0
+    ensures 0 <= bucket_of(key, n) < n
+{}
+} // verus!
